@@ -1,8 +1,10 @@
 #!/usr/bin/env python3
 """C06 - TimeInterval is the set [start,end) or {start}.  See DESIGN.md section 5 / C06."""
+import contextlib
 import itertools
 import os
 import sys
+import time
 from datetime import datetime, timedelta, timezone
 from fractions import Fraction
 
@@ -34,6 +36,56 @@ def of_dt(d):
 
 def ivl(p):
     return f'({zlit(p[0])}, {zlit(p[1])})'
+
+
+# ---- process time zones.  MECHANISM CLASS: reading a timezone-naive datetime through the PROCESS-LOCAL zone
+# (astimezone()/timestamp() on a naive value, fromtimestamp() without tz, mktime/localtime) instead of stamping it UTC:
+# invisible while the process zone is UTC, wrong elsewhere.  The naive part of the corpus is repeated under zones set
+# in-process (POSIX TZ strings need no tz database; 'UTC-9' is nine hours EAST of Greenwich).
+ZONES = ['EST5EDT', 'UTC-9', '<+0330>-3:30', 'NZST-12NZDT,M9.5.0,M4.1.0/3', '<-11>11', 'CET-1CEST,M3.5.0,M10.5.0/3', '<+0545>-5:45']
+
+
+@contextlib.contextmanager
+def process_zone(tz):
+    os.environ['TZ'] = tz
+    time.tzset()
+    try:
+        yield
+    finally:
+        os.environ['TZ'] = 'UTC'
+        time.tzset()
+
+
+def txt(d, sep='T'):
+    """timezone-less text of a naive datetime in a format TimeInterval.from_str recognises by default"""
+    return d.strftime(f'%Y-%m-%d{sep}%H:%M:%S.%f')
+
+
+# ---- the whole range datetime supports.  MECHANISM CLASS: time arithmetic or comparison routed through floating-point
+# seconds (timestamp(), total_seconds(), fromtimestamp) or any other representation that cannot resolve one microsecond
+# everywhere in years 1..9999: a double resolves microseconds only within 2**33 s (~272 years) of 1970 and the spacing
+# doubles at every further power of two.  The model is over Z: far bounds are just bigger integers.
+DT_MIN, DT_MAX = datetime.min.replace(tzinfo=timezone.utc), datetime.max.replace(tzinfo=timezone.utc)
+
+
+def far_anchors(rng):
+    """[(label, microseconds relative to EPOCH, offset styles allowed)]: a seeded instant in each of the years 1066, 1697,
+    1970, 2242, 2400, 3021, 9000; 1970 +- 2**k seconds (k = 31..37, where in range); the two ends of datetime's range"""
+    out = []
+    for y in (1066, 1697, 1970, 2242, 2400, 3021, 9000):
+        d = datetime(y, rng.randint(1, 12), rng.randint(1, 28), rng.randrange(24), rng.randrange(60), rng.randrange(60),
+                     rng.choice([0, 1, 250001, 999998, rng.randrange(10**6)]), tzinfo=timezone.utc)
+        out.append((f'year {y}', of_dt(d), True))
+    p0 = of_dt(datetime(1970, 1, 1, tzinfo=timezone.utc))
+    lo, hi = of_dt(DT_MIN) + 2 * 86_400_000_000, of_dt(DT_MAX) - 2 * 86_400_000_000
+    for k in range(31, 38):
+        for sign in (1, -1):
+            z = p0 + sign * 2**k * 10**6
+            if lo < z < hi:
+                out.append((f'1970{"+" if sign > 0 else "-"}2**{k}s', z, True))
+    out.append(('datetime.min', of_dt(DT_MIN) + 2, False))
+    out.append(('datetime.max', of_dt(DT_MAX) - 3, False))
+    return out
 
 
 def iv_out(i):
@@ -210,6 +262,82 @@ def main():
             lit, obs = rel_case(c, d, next(styles_cycle), None, B=D)
             add(lit, {'k': 'rel', 'a': c, 'b': d, 'styles': ['ctor', how], 'obs': obs, 'derived': how, 'from': [a, b]})
             ck.count('derived:' + how)
+    # ---- consecutive microsecond ticks around bounds anywhere in years 1..9999 (see far_anchors): every well-formed
+    # interval over 6 consecutive ticks, membership of every tick, and the relations between them, all judged by the exact
+    # integer set model (Gallina model over Z + the Python oracle)
+    anchors = far_anchors(rng)
+    plain = itertools.cycle([('utc', 'utc'), ('naive', 'naive'), ('naive', 'utc'), ('utc', 'naive')])
+    for label, z, offsets_ok in anchors:
+        stc = styles_cycle if offsets_ok else plain
+        ticks = [z + k for k in range(-2, 4)]
+        fivs = [(s_, e_) for s_ in ticks for e_ in ticks if s_ <= e_]
+        for s_ in ticks[1:5]:
+            for e_ in ticks[1:5]:
+                stl = next(stc)
+                r = guarded(lambda: iv_out(TimeInterval(to_dt(s_, stl[0]), to_dt(e_, stl[1]))))
+                add(f'KMk {zlit(s_)} {zlit(e_)} {reslit(r, ivl)}', {'k': 'mk', 'far': label, 's': s_, 'e': e_, 'styles': stl, 'out': r})
+                r = guarded(lambda: iv_out(TimeInterval(to_dt(s_, stl[0]), timedelta(microseconds=e_ - s_))))
+                add(f'KMkDelta {zlit(s_)} {zlit(e_ - s_)} {reslit(r, ivl)}', {'k': 'mkdelta', 'far': label, 's': s_, 'd': e_ - s_, 'styles': stl, 'out': r})
+        for a in fivs:
+            for t in ticks:
+                stl = next(stc)
+                A = build(a, stl)
+                o1, o2 = to_dt(t, stl[1]) in A, A.intersects(to_dt(t, stl[0]))
+                add(f'KContains {ivl(a)} {zlit(t)} {blit(o1)} {blit(o2)}', {'k': 'contains', 'far': label, 'a': a, 't': t, 'styles': stl, 'in': o1, 'intersects': o2})
+        fpairs = [(a, b) for a in fivs for b in fivs]
+        if ck.tier == 'quick':
+            fpairs = rng.sample(fpairs, 110)
+        for a, b in fpairs:
+            sa, sb = next(stc), next(stc)
+            lit, obs = rel_case(a, b, sa, sb)
+            add(lit, {'k': 'rel', 'far': label, 'a': a, 'b': b, 'styles': [sa, sb], 'obs': obs})
+            if len({a[0], a[1], b[0], b[1]}) < 4:
+                nontrivial.add((a, b))
+            ck.count('far:' + ('year' if label.startswith('year') else 'pow2' if label.startswith('1970') else 'edge'))
+
+    # ---- the naive-datetime part of the corpus again under several PROCESS TIME ZONES (see ZONES): naive datetimes are read
+    # as UTC whatever the zone.  The Gallina cases carry the integer bounds of the INTENDED UTC reading.
+    zones = ZONES[:5] if ck.tier == 'quick' else ZONES
+    nv = itertools.cycle([('naive', 'naive'), ('naive', 'utc'), ('utc', 'naive'), ('naive', 120), (-330, 'naive'), ('naive', 'naive')])
+    aw = itertools.cycle([('utc', 'utc'), (120, -330), ('utc', 345), ('naive', 'naive')])
+    for zi, tz in enumerate(zones):
+        with process_zone(tz):
+            inner = [x for x in anchors if x[2]]                  # the two ends of the range admit no offset-aware spelling
+            zanch = [inner[(zi * 4 + j) % len(inner)] for j in range(2)]
+            for s in pts:
+                for e in pts:
+                    stl = next(nv)
+                    r = guarded(lambda: iv_out(TimeInterval(to_dt(s, stl[0]), to_dt(e, stl[1]))))
+                    add(f'KMk {zlit(s)} {zlit(e)} {reslit(r, ivl)}', {'k': 'mk', 'zone': tz, 's': s, 'e': e, 'styles': stl, 'out': r})
+                    r = guarded(lambda: iv_out(TimeInterval(to_dt(s, 'naive'), timedelta(microseconds=e - s))))
+                    add(f'KMkDelta {zlit(s)} {zlit(e - s)} {reslit(r, ivl)}', {'k': 'mkdelta', 'zone': tz, 's': s, 'd': e - s, 'styles': ['naive'], 'out': r})
+                    r = guarded(lambda: iv_out(TimeInterval.from_str(txt(to_dt(s, 'naive')), txt(to_dt(e, 'naive'), ' '))))
+                    add(f'KMk {zlit(s)} {zlit(e)} {reslit(r, ivl)}', {'k': 'mk', 'zone': tz, 's': s, 'e': e, 'styles': 'from_str(naive texts)', 'out': r})
+                r = guarded(lambda: iv_out(TimeInterval.from_str(txt(to_dt(s + zi, 'naive')))))
+                add(f'KMk {zlit(s + zi)} {zlit(s + zi)} {reslit(r, ivl)}', {'k': 'mk', 'zone': tz, 's': s + zi, 'e': s + zi, 'styles': 'from_str(naive text)', 'out': r})
+            zivs = ivs + [(zq + k, zq + k2) for _, zq, _ in zanch for k in (0, 1) for k2 in (1, 2) if k <= k2]
+            for a in zivs:
+                for t in ([p_ for p_ in pts if a[0] - H <= p_ <= a[1] + H] if a[1] < 10**14 and a[0] > -10**14 else [a[0] - 1, a[0], a[1], a[1] - 1]):
+                    stl = next(nv) if t % 2 else next(aw)        # the interval naive / mixed or aware; the probe always naive
+                    A = build(a, stl)
+                    d = to_dt(t, 'naive')
+                    o1, o2 = d in A, A.intersects(d)
+                    add(f'KContains {ivl(a)} {zlit(t)} {blit(o1)} {blit(o2)}', {'k': 'contains', 'zone': tz, 'a': a, 't': t, 'styles': [stl, 'naive probe'], 'in': o1, 'intersects': o2})
+            zp = [(a, b) for a in zivs for b in zivs]
+            if ck.tier == 'quick':
+                zp = rng.sample(zp, 160)
+            for n, (a, b) in enumerate(zp):
+                sa, sb = (next(nv), next(aw)) if n % 2 else (next(aw), next(nv))     # one operand given naive, the other stamped
+                try:
+                    lit, obs = rel_case(a, b, sa, sb)
+                except Exception as ex:                                              # a well-formed interval was rejected
+                    ck.violation({'kind': 'property-fails-on-implementation', 'case': {'k': 'rel', 'zone': tz, 'a': a, 'b': b, 'styles': [sa, sb]},
+                                  'detail': f'constructing the well-formed intervals or relating them raised {type(ex).__name__}: {ex}'}) if zi == 0 and n < 40 else None
+                    continue
+                add(lit, {'k': 'rel', 'zone': tz, 'a': a, 'b': b, 'styles': [sa, sb], 'obs': obs})
+                if len({a[0], a[1], b[0], b[1]}) < 4:
+                    nontrivial.add((a, b))
+                ck.count('zone:rel')
     ck.cov['evaluations'] = len(cases)
     ck.cov['distinct_nontrivial'] = len(nontrivial)
     ck.cov['exhaustive'] = True
@@ -220,6 +348,17 @@ def main():
 
     # the property evaluated directly on the implementation's answers (every rel case)
     for i, m in enumerate(meta):
+        if m['k'] == 'contains' and (m['in'], m['intersects']) != (mem(m['t'], m['a']),) * 2:
+            bad.append(i) if i not in bad else None
+            m.setdefault('property_clauses_violated', []).append(
+                ['membership', f'`t in a` = {m["in"]}, a.intersects(t) = {m["intersects"]}, but instant {m["t"]} is {"" if mem(m["t"], m["a"]) else "not "}in the set {tuple(m["a"])}'])
+        if m['k'] in ('mk', 'mkdelta') and 'styles' in m:
+            s_, e_ = m['s'], m['e'] if m['k'] == 'mk' else m['s'] + m['d']
+            want = ('Ok', (s_, e_)) if s_ <= e_ else None
+            if (want is None and m['out'][0] == 'Ok') or (want is not None and tuple(m['out']) != want):
+                bad.append(i) if i not in bad else None
+                m.setdefault('property_clauses_violated', []).append(
+                    ['constructor', f'bounds ({s_}, {e_}) given as {m["styles"]}: constructor gave {m["out"]}, expected {"rejection" if want is None else want}'])
         if m['k'] != 'rel':
             continue
         for clause, detail in oracle(m['a'], m['b'], m['obs']):
@@ -250,7 +389,11 @@ def main():
 
     ck.finish(rule='exhaustive 7-point timeline (all 28 well-formed intervals, 784 ordered pairs, every instant, all 49 '
                    'constructor pairs x datetime/timedelta end) + seeded random microsecond pairs with forced shared '
-                   'endpoints; aware/naive/offset datetimes cycled; non-trivial = the two intervals share an endpoint value '
+                   'endpoints; aware/naive/offset datetimes cycled; every well-formed interval over 6 consecutive microsecond ticks around '
+                   'seeded instants in years 1066/1697/1970/2242/2400/3021/9000, at 1970 +- 2**k s (k=31..37) and at both ends of '
+                   'datetime range (constructor, membership of every tick, relations: all in thorough, 110 seeded pairs per anchor in quick); '
+                   'the naive-datetime part again under 5 (thorough 7) non-UTC PROCESS time zones (TZ + tzset): constructor incl. timedelta end '
+                   'and from_str, membership of naive datetimes, relations between a naive-given and a UTC/offset-stamped interval; non-trivial = the two intervals share an endpoint value '
                    'or one is an instant (distinct (a,b) counted)',
               assumptions=['datetime -> integer microseconds UTC is a faithful abstraction of Python datetime comparison/equality/hash',
                            'the dense timeline of the theorems is Q; the implementation is probed at endpoints and midpoints'])
@@ -260,9 +403,20 @@ def replay(path):
     import json
     r = json.load(open(path))
     m = r.get('case')
-    if not m or m.get('k') != 'rel':
+    if not m or m.get('k') not in ('rel', 'contains'):
         print(json.dumps(r, indent=1)); return
-    lit, obs = rel_case(tuple(m['a']), tuple(m['b']), ('utc', 'utc'), ('utc', 'utc'))
+
+    def sty(x):
+        x = tuple(x) if isinstance(x, (list, tuple)) and len(x) == 2 and all(y in ('utc', 'naive') or isinstance(y, int) for y in x) else ('utc', 'utc')
+        return x
+    with process_zone(m.get('zone') or 'UTC'):           # cases of the process-time-zone family replay under their zone
+        if m['k'] == 'contains':
+            A = build(tuple(m['a']), sty(m.get('styles', [])[0] if m.get('zone') else m.get('styles')))
+            d = to_dt(m['t'], 'naive' if m.get('zone') else 'utc')
+            print(f'implementation now: {d!r} in {A!r} = {d in A}; intersects = {A.intersects(d)}; set model says {mem(m["t"], m["a"])}')
+            return
+        st = m.get('styles') or [None, None]
+        lit, obs = rel_case(tuple(m['a']), tuple(m['b']), sty(st[0]), sty(st[1]))
     print('implementation now:', obs)
     print('property clauses violated now:', oracle(tuple(m['a']), tuple(m['b']), obs))
     print('gallina case:', lit)
